@@ -9,9 +9,12 @@ PID = "C13"
 RULE = ("Pairs (P, P'): P is a well-formed dlgen program (typed, grounded, stratified by construction; negation, aggregates, records, "
         "recursion, functors); P' is P plus exactly one injected defect that is ill-formed by the language rules: a dependency cycle "
         "through negation (cycle length 1..n: a new rule A(..) :- ..., !B(..) where B already depends on A), a cycle through an aggregate "
-        "body, an ungrounded variable in a rule head / in a negated atom / in a comparison / in a functor argument, or a type clash "
-        "(symbol constant in a numeric attribute, one variable used at a symbol and a numeric position, comparison of a number with "
-        "a string, string functor applied to a number, number functor applied to a string). Oracle: P => exit 0, no 'Error' "
+        "body or through an aggregate placed in a rule HEAD, an ungrounded variable in a rule head / in a negated atom / in a "
+        "comparison / in a functor argument / as an aggregate's target expression, a type clash (symbol constant in a numeric "
+        "attribute, one variable used at a symbol and a numeric position, comparison of a number with a string, string functor "
+        "applied to a number, number functor applied to a string, ordered comparison < <= > >= between two records), or a "
+        "declaration clash (atom with one argument too many / too few, record constructor with the wrong number of fields, atom "
+        "of an undeclared relation). Oracle: P => exit 0, no 'Error' "
         "diagnostic, every output file written; P' => exit status 1, >= 1 'Error' diagnostic, the closing 'N errors generated, "
         "evaluation aborted' and NO output file created. Non-trivial = the defect is deep (cycle of length >= 2, defect inside a "
         "recursive stratum, or in a rule that also has an aggregate or negation) or P uses negation and aggregation across >= 3 "
@@ -82,8 +85,8 @@ def binder_for(P, ch, rel, fresh):
     return args, body
 
 
-KINDS = ["neg_cycle", "agg_cycle", "unground_head", "unground_neg", "unground_cmp", "unground_functor", "type_const", "type_var",
-         "type_cmp", "type_functor"]
+KINDS = ["neg_cycle", "agg_cycle", "agg_cycle_head", "unground_head", "unground_neg", "unground_cmp", "unground_functor", "unground_agg",
+         "type_const", "type_var", "type_cmp", "type_functor", "type_order_record", "record_arity", "arity", "undeclared"]
 
 
 def inject(P, ch):
@@ -120,6 +123,56 @@ def attempt(P, ch, kind, A):
             z = Var("iz", NUMBER)
             body.append(Cmp("=", z, Agg("count", None, [Atom(B.name, list(loc))], NUMBER, list(loc)), NUMBER))
             body.append(Cmp(">=", z, Const(0, NUMBER), NUMBER))
+    elif kind == "agg_cycle_head":
+        # the aggregate sits in the rule head: A(.., count : { B(..) }, ..) :- ... with B depending on A
+        idx = [i for i, v in enumerate(hargs) if v.ty == NUMBER]
+        if not idx:
+            return None
+        cands = [P.rels[n] for n in P.order if n == A.name or A.name in dep[n]]
+        B = ch.choice(cands)
+        deep = deep or B.name != A.name
+        loc = [Var("il%d" % i, ty) for i, ty in enumerate(B.types)]
+        hargs[ch.choice(idx)] = Agg("count", None, [Atom(B.name, list(loc))], NUMBER, list(loc))
+    elif kind == "unground_agg":
+        lows = [P.rels[n] for n in P.order if P.rels[n].kind == "edb"]
+        if not lows:
+            return None
+        L = ch.choice(lows)
+        z = Var("iz", NUMBER)
+        body.append(Cmp("=", z, Agg(ch.choice(["sum", "min", "max"]), Var("iu", NUMBER), [Atom(L.name, [Wild(t) for t in L.types])], NUMBER, []), NUMBER))
+        body.append(Cmp(">=", z, Const(0, NUMBER), NUMBER))
+    elif kind in ("type_order_record", "record_arity"):
+        recs = [(n, j) for n in P.order for j, t in enumerate(P.rels[n].types)
+                if isinstance(t, dlgen.RecT) and not isinstance(t, dlgen.AdtT) and P.rels[n].kind == "edb"]
+        if not recs:
+            # no record-typed input attribute in P: declare one (well-formed on its own) for the injected rule to use
+            rt = dlgen.RecT("IRec", [NUMBER, SYMBOL])
+            P.rectypes.append(rt)
+            er = dlgen.Rel("irec", [NUMBER, rt], "edb")
+            er.facts = [(1, (2, "a")), (2, (3, "b"))]
+            P.add_rel(er)
+            recs = [("irec", 1)]
+        n, j = ch.choice(recs)
+        ty = P.rels[n].types[j]
+        v, w = Var("it", ty), Var("iw", ty)
+        body.append(Atom(n, [v if q == j else Wild(t) for q, t in enumerate(P.rels[n].types)]))
+        if kind == "type_order_record":
+            # records are only comparable with = and !=
+            body.append(Atom(n, [w if q == j else Wild(t) for q, t in enumerate(P.rels[n].types)]))
+            body.append(Cmp(ch.choice(["<", "<=", ">", ">="]), v, w, ty))
+        else:
+            flds = [Wild(t) for t in ty.fields]
+            flds = flds + [Wild(NUMBER)] if ch.bool(0.5) or len(flds) < 2 else flds[:-1]
+            body.append(Cmp("=", v, RecInit(flds, ty), ty))
+    elif kind == "arity":
+        lows = [P.rels[n] for n in P.order if P.rels[n].kind == "edb"]
+        if not lows:
+            return None
+        L = ch.choice(lows)
+        args = [Wild(t) for t in L.types]
+        body.append(Atom(L.name, args + [Wild(NUMBER)] if ch.bool(0.5) or len(args) < 2 else args[:-1]))
+    elif kind == "undeclared":
+        body.append(Atom("undeclared_rel", [Wild(NUMBER)]))
     elif kind == "unground_head":
         idx = [i for i, v in enumerate(hargs) if not isinstance(v.ty, dlgen.RecT)]
         if not idx:
@@ -234,8 +287,11 @@ def judge(case, st=None):
                         {"case": case})
     if st is not None:
         st.classes["defect:" + case["kind"]] += 1
-        cls = "stratification" if "cycle" in case["kind"] else "ungrounded" if "unground" in case["kind"] else "type"
-        want = {"stratification": ["stratif", "cyclic", "Unable to stratify"], "ungrounded": ["ngrounded"], "type": ["type", "Type", "functor", "overload", "constant"]}[cls]
+        cls = ("stratification" if "cycle" in case["kind"] else "ungrounded" if "unground" in case["kind"] else
+               "declaration" if case["kind"] in ("arity", "undeclared", "record_arity") else "type")
+        want = {"stratification": ["stratif", "cyclic", "Unable to stratify"], "ungrounded": ["ngrounded"],
+                "declaration": ["arity", "Undefined relation", "number of arguments"],
+                "type": ["type", "Type", "functor", "overload", "constant"]}[cls]
         if any(w in rr.err for w in want):
             st.classes["diagnostic_matches_class:" + cls] += 1
         if case["deep"] or case["strata_feats"] >= 3:
